@@ -556,7 +556,10 @@ class AxisChecker:
         if len(elts) == 3:
             cands = [("X", "Y", "Z"), ("Z", "Y", "X"), ("COL", "ROW", "SLC")]
         elif len(elts) == 4:
+            # the three axes in one of the two orders, the fourth quantity
+            # (channels, a per-block record, ...) at either end
             cands = [(None, "Z", "Y", "X"), ("X", "Y", "Z", None),
+                     ("Z", "Y", "X", None), (None, "X", "Y", "Z"),
                      (None, "SLC", "ROW", "COL")]
         else:
             cands = [("X", "X", "Y", "Y", "Z", "Z")]
